@@ -881,8 +881,15 @@ func coqTrace(i int, c TraceCase, obs []TObs, matches [][]bool) string {
 }
 
 var (
-	tracePaths    = []string{"/health", "/api/ping", "/api/items", "/svc.Health/Check", "/svc.Items/List", "/", "/api/orders?probe=ping", "/api/it%65ms"}
-	discardPats   = []string{"^/health", "ping$", `^/svc\.Health/`, "items"}
+	tracePaths  = []string{"/health", "/api/ping", "/api/items", "/svc.Health/Check", "/svc.Items/List", "/", "/api/orders?probe=ping", "/api/it%65ms"}
+	discardPats = []string{"^/health", "ping$", `^/svc\.Health/`, "items"}
+	// discard patterns are drawn from flags x bodies: inline flags, anchors, top-level
+	// alternations without parentheses; the paths below match exactly one pattern, none,
+	// or one only if a flag of ANOTHER pattern leaked into it
+	discFlags  = []string{"", "", "", "", "(?i)", "(?i)", "(?s)", "(?is)"}
+	discBodies = []string{`^/healthz$`, `^/LIVE$`, `^/health`, `ping$`, `^/svc\.Health/`, `items`, `^/a$|^/b$`, `orders|items`, `^/api/.ping$`, `^/READY$`, `/x.y$`, `^/metrics$|^/debug/`}
+	discPaths  = []string{"/healthz", "/HEALTHZ", "/live", "/LIVE", "/api/ping", "/api/PING", "/api/Xping", "/a", "/b", "/B", "/api/items", "/api/ITEMS",
+		"/api/orders", "/ready", "/READY", "/metrics", "/METRICS", "/debug/vars", "/Debug/vars", "/svc.Health/Check", "/SVC.HEALTH/check", "/svc.Items/List", "/", "/x-y", "/api/orders?probe=ping"}
 	inboundTraces = [][]B{nil, nil, nil, {""}, {"tid-in"}, {"0af7651916cd43dd8448eb211c80319c"}, {"t1", "t2"}, {"", "t2"}, {"tr\xc3\xa9"}, {"x"}, {"span-in"}}
 	inboundParent = [][]B{nil, nil, {""}, {"span-in"}, {"b7ad6b7169203331"}, {"p1", "p2"}, {"", "p2"}, {"x"}, {"tid-in"}}
 )
@@ -910,8 +917,10 @@ func genTOpts(rng *vh.RNG, allowAdaptive bool) (opts []TOpt, size int, adaptive 
 		}
 	default: // defaults: 100 %
 	}
-	for k := rng.Intn(3); k > 0 && rng.Chance(2, 3); k-- {
-		opts = append(opts, TOpt{K: "discard", Pattern: vh.Pick(rng, discardPats)})
+	if rng.Chance(2, 3) {
+		for k := rng.Intn(5); k > 0; k-- {
+			opts = append(opts, TOpt{K: "discard", Pattern: vh.Pick(rng, discFlags) + vh.Pick(rng, discBodies)})
+		}
 	}
 	// the deterministic id functions, somewhere in the list
 	at := rng.Intn(len(opts) + 1)
@@ -923,8 +932,12 @@ func genTOpts(rng *vh.RNG, allowAdaptive bool) (opts []TOpt, size int, adaptive 
 	return
 }
 
-func genTReq(rng *vh.RNG, tag string) TReq {
-	q := TReq{Path: vh.Pick(rng, tracePaths), Seed: int64(rng.Next() >> 1), NewTrace: B("T" + tag), NewSpan: B("S" + tag)}
+func genTReq(rng *vh.RNG, tag string, kind string) TReq {
+	paths := tracePaths
+	if rng.Chance(2, 3) {
+		paths = discPaths
+	}
+	q := TReq{Path: vh.Pick(rng, paths), Seed: int64(rng.Next() >> 1), NewTrace: B("T" + tag), NewSpan: B("S" + tag)}
 	q.Trace = vh.Pick(rng, inboundTraces)
 	q.Parent = vh.Pick(rng, inboundParent)
 	q.NilURL = rng.Chance(1, 30)
@@ -935,6 +948,9 @@ func genTReq(rng *vh.RNG, tag string) TReq {
 		if rng.Chance(1, 3) {
 			q.Base.Trace, q.Base.Span = bp("stale-trace"), bp("stale-span")
 		}
+	}
+	if kind != "http" && rng.Chance(1, 25) {
+		q.Path = "/x\ny" // a full method with a newline: only (?s) lets "." match it
 	}
 	if rng.Chance(1, 50) {
 		q.NewTrace = "" // a TraceIDFunc returning the empty string: the request stays untraced
@@ -962,6 +978,35 @@ func genTrace(rng *vh.RNG, tier string) []TraceCase {
 			}
 		}
 	}
+	// several discard patterns: a request is discarded iff SOME pattern matches its path on its
+	// own. The last path of every row matches a later pattern only if a flag of an earlier one
+	// leaked into it (patterns folded into one expression without grouping).
+	leaks := [][]string{
+		{`(?i)^/healthz$`, `^/LIVE$`, "/live"},
+		{`(?i)ping$`, `^/READY$`, "/ready"},
+		{`(?i)^/a$|^/b$`, `items`, "/api/ITEMS"},
+		{`^/metrics$`, `(?i)^/debug/`, `^/LIVE$`, "/live"},
+		{`(?s)^/zzz`, `/x.y$`, "/x\ny"},
+		{`^/LIVE$`, `(?i)^/healthz$`, "/HEALTHZ"}, // matches the second pattern on its own: discarded
+		{`^/a$|^/b$`, `ping$`, "/b"},              // top-level alternation: discarded
+		{`^/a$|^/b$`, `ping$`, "/bb"},             // not discarded
+	}
+	for _, k := range kinds {
+		for li, row := range leaks {
+			path := row[len(row)-1]
+			if k == "http" && strings.Contains(path, "\n") {
+				continue
+			}
+			for _, po := range [][]TOpt{{{K: "percent", N: 100}}, {}, {{K: "percent", N: 0}}} {
+				c := TraceCase{Stream: "trace", Kind: k, Wrap: li%2 == 0, Opts: append([]TOpt{{K: "idfuncs"}}, po...)}
+				for _, pat := range row[:len(row)-1] {
+					c.Opts = append(c.Opts, TOpt{K: "discard", Pattern: pat})
+				}
+				c.Reqs = []TReq{{Path: path, Seed: int64(100 + li), NewTrace: "Tl", NewSpan: "Sl"}}
+				cases = append(cases, c)
+			}
+		}
+	}
 	n := 1200
 	if tier == "thorough" {
 		n = 11000
@@ -976,7 +1021,7 @@ func genTrace(rng *vh.RNG, tier string) []TraceCase {
 			nreq = size - 1 // stay below the first clock-dependent adjustment
 		}
 		for j := 0; j < nreq; j++ {
-			c.Reqs = append(c.Reqs, genTReq(rng, fmt.Sprintf("%d.%d", i, j)))
+			c.Reqs = append(c.Reqs, genTReq(rng, fmt.Sprintf("%d.%d", i, j), c.Kind))
 		}
 		cases = append(cases, c)
 	}
@@ -2108,6 +2153,125 @@ func concurrent(res *vh.Result, workers, per int) int {
 	return total
 }
 
+// freshIDs sends requests WITHOUT inbound identifiers through one default
+// request-id middleware (untrusted: every id is generated) and one default trace
+// middleware (default id functions, 100 %) per transport, from `workers`
+// goroutines released together, and collects every generated request id, trace id
+// and span id: all must be non-empty, differ from the (untrusted) inbound value,
+// and be pairwise distinct. The ids are 48 random bits, so one or two accidental
+// collisions among a few hundred thousand would be legitimate (expected number
+// about n^2 / 2^49, i.e. < 0.001 here); three or more are not.
+func freshIDs(res *vh.Result, workers, per int) int {
+	type bucket struct{ ids []string }
+	buckets := make([]bucket, workers)
+	bad := ""
+	var mu sync.Mutex
+	note := func(s string) {
+		mu.Lock()
+		if bad == "" {
+			bad = s
+		}
+		mu.Unlock()
+	}
+	const inbound = "inbound-id-not-to-be-trusted"
+	type inst struct {
+		kind string
+		rid  func(see func(context.Context))
+		tr   *server
+	}
+	var insts []inst
+	for _, k := range kinds {
+		in := inst{kind: k, tr: newServer(k, nil)}
+		switch k {
+		case "http":
+			mw := httpmw.RequestID()
+			in.rid = func(see func(context.Context)) {
+				r := httptest.NewRequest("GET", "http://svc/items", nil)
+				r.Header.Set("X-Request-Id", inbound)
+				mw(http.HandlerFunc(func(w http.ResponseWriter, r *http.Request) { see(r.Context()) })).ServeHTTP(httptest.NewRecorder(), r)
+			}
+		case "unary":
+			ic := grpcmw.UnaryRequestID()
+			in.rid = func(see func(context.Context)) {
+				ctx := metadata.NewIncomingContext(context.Background(), metadata.Pairs("x-request-id", inbound))
+				_, _ = ic(ctx, nil, &grpc.UnaryServerInfo{FullMethod: "/svc.Items/List"}, func(ctx context.Context, req any) (any, error) { see(ctx); return nil, nil })
+			}
+		default:
+			ic := grpcmw.StreamRequestID()
+			in.rid = func(see func(context.Context)) {
+				ctx := metadata.NewIncomingContext(context.Background(), metadata.Pairs("x-request-id", inbound))
+				_ = ic(nil, &fakeServerStream{ctx: ctx}, &grpc.StreamServerInfo{FullMethod: "/svc.Items/Watch"}, func(srv any, ss grpc.ServerStream) error { see(ss.Context()); return nil })
+			}
+		}
+		insts = append(insts, in)
+	}
+	start := make(chan struct{})
+	var wg sync.WaitGroup
+	for g := 0; g < workers; g++ {
+		g := g
+		wg.Add(1)
+		go func() {
+			defer wg.Done()
+			defer func() {
+				if r := recover(); r != nil {
+					note(fmt.Sprint("panic: ", r))
+				}
+			}()
+			b := &buckets[g]
+			<-start // barrier: everybody starts together
+			for i := 0; i < per; i++ {
+				for _, in := range insts {
+					in.rid(func(ctx context.Context) {
+						id := strOrEmpty(ctx.Value(middleware.RequestIDKey))
+						if id == "" || id == inbound {
+							note(fmt.Sprintf("%s: generated request id %q (untrusted inbound %q)", in.kind, id, inbound))
+						}
+						b.ids = append(b.ids, "rid:"+id)
+					})
+					in.tr.call("/api/items", false, nil, nil, Ctx3{}, func(ctx context.Context) {
+						c := readCtx(ctx)
+						if c.Trace == nil || *c.Trace == "" || c.Span == nil || *c.Span == "" {
+							note(fmt.Sprintf("%s: default trace middleware produced trace %q span %q", in.kind, deref(c.Trace), deref(c.Span)))
+							return
+						}
+						b.ids = append(b.ids, "trace:"+string(*c.Trace), "span:"+string(*c.Span))
+					})
+				}
+			}
+		}()
+	}
+	close(start)
+	wg.Wait()
+	seen := map[string]string{}
+	dups, n := 0, 0
+	example := ""
+	for _, b := range buckets {
+		for _, tagged := range b.ids {
+			n++
+			i := strings.IndexByte(tagged, ':')
+			role, id := tagged[:i], tagged[i+1:]
+			if prev, ok := seen[id]; ok {
+				dups++
+				if example == "" {
+					example = fmt.Sprintf("%q was generated as a %s id and again as a %s id", id, prev, role)
+				}
+			} else {
+				seen[id] = role
+			}
+		}
+	}
+	in := map[string]any{"stream": "fresh-ids", "workers": workers, "requests_per_worker_and_transport": per, "ids": n, "duplicates": dups}
+	if bad != "" {
+		record(res, "fresh-id-empty-or-inbound", "concurrent requests: "+bad, in)
+	}
+	if dups >= 3 {
+		record(res, "fresh-ids-not-distinct", fmt.Sprintf("%d of %d identifiers generated for concurrent requests (request ids, trace ids, span ids; %d goroutines) are duplicates: %s", dups, n, workers, example), in)
+	}
+	res.Dist["fresh_ids_generated"] = n
+	res.Dist["fresh_ids_duplicates"] = dups
+	return n
+}
+
 // ================================================================ samplers
 
 // samplerTable runs the real fixedSampler on every percentage 0..100 against
@@ -2219,8 +2383,8 @@ func main() {
 	if *only == "concurrent" {
 		// used with a -race build: many goroutines through one middleware instance
 		r := vh.NewResult()
-		r.Evaluations = concurrent(r, 8, 400)
-		r.Rule = "8 goroutines x 400 requests with distinct ids through one middleware instance per transport"
+		r.Evaluations = concurrent(r, 16, 200) + freshIDs(r, 16, 300)
+		r.Rule = "16 goroutines x 200 requests with distinct ids through one middleware instance per transport; 16 goroutines x 300 requests x 3 transports without inbound ids: every generated request/trace/span id distinct"
 		if err := r.Write(filepath.Join(*out, "result_concurrent.json")); err != nil {
 			panic(err)
 		}
@@ -2286,7 +2450,9 @@ func main() {
 			_ = json.Unmarshal(rp.Input, &c)
 			logs = append(logs, c)
 		case "concurrent":
-			concurrent(res, 8, 1500)
+			concurrent(res, 16, 750)
+		case "fresh-ids":
+			freshIDs(res, 16, 800)
 		case "sampler":
 			table = true
 		case "sampling":
@@ -2460,7 +2626,8 @@ func main() {
 			res.Count("log_kind=" + lc.Rid.Kind)
 		}
 		evals += nlog
-		evals += concurrent(res, 8, 1500)
+		evals += concurrent(res, 16, 750)
+		evals += freshIDs(res, 16, 800)
 	}
 	for _, lc := range logs {
 		runLog(lc, res)
@@ -2486,7 +2653,7 @@ func main() {
 
 	res.Evaluations = evals
 	res.Distinct = len(distinct)
-	res.Rule = "request id: kinds {http, grpc unary, grpc stream} x option lists (use on/off, header names incl. case variants and the empty name, limits 0, negative, 1, len-1, len, len+1, huge; later options override earlier ones) x inbound values (absent, empty, short, long, multi-byte, invalid UTF-8, several values, first value empty) x optional id already in the context, every case run twice; trace: sequences of 1-5 requests through one middleware instance (sampling 0..100, default, adaptive below its sample size, 0-2 discard patterns, inbound trace / parent headers absent, empty, single, multiple, stale context values, nil URL), math/rand reseeded per request so the draw is known; chains: depth 1-4 (thorough 1-8) of servers of random transports calling the next through WrapDoer / UnaryClientTrace / StreamClientTrace; stacks: the middleware chain composed as servers compose it (http nesting; grpc ChainUnaryInterceptor/ChainStreamInterceptor order) with request-id, trace and every transparent layer (Log, LogContext, Debug, PopulateRequestContext, RequestContextKeyVals, SmartRedirectSlashes, StreamCanceler) in every position, the handler reading its context and calling downstream through the traced client; capture: writer histories over WriteHeader/Write/Flush/io.Copy/io.WriteString/ResponseController.Flush in any order (repeated and late WriteHeader calls, Flush first) against httptest.ResponseRecorder (with short writes) and a real net/http server; fixed sampler: every percentage 0..100 x every draw 0..99 run on the real sampler (exhaustive; the quick tier compares the rows around r = p, the extreme draws and percentages 0, 1, 50, 99, 100 with the model, the thorough tier all of them); sampling loops: 0 %, 100 % and default over n requests per transport; log: request-id middleware -> Log middleware -> handler playing a writer history (direct oracle only); concurrent: 8 goroutines x 1500 requests with distinct ids through one middleware instance per transport (direct oracle only). Non-trivial = request-id case with a non-empty inbound value or context id; trace sequence with an inbound trace id, a sampler draw or more than one request; chain of depth >= 2 whose first server is traced; history with at least two events; stack of at least three layers; distinct = distinct inputs among those"
+	res.Rule = "request id: kinds {http, grpc unary, grpc stream} x option lists (use on/off, header names incl. case variants and the empty name, limits 0, negative, 1, len-1, len, len+1, huge; later options override earlier ones) x inbound values (absent, empty, short, long, multi-byte, invalid UTF-8, several values, first value empty) x optional id already in the context, every case run twice; trace: sequences of 1-5 requests through one middleware instance (sampling 0..100, default, adaptive below its sample size, 0-4 discard patterns with inline flags, anchors and top-level alternations, paths in case variants, inbound trace / parent headers absent, empty, single, multiple, stale context values, nil URL), math/rand reseeded per request so the draw is known; chains: depth 1-4 (thorough 1-8) of servers of random transports calling the next through WrapDoer / UnaryClientTrace / StreamClientTrace; stacks: the middleware chain composed as servers compose it (http nesting; grpc ChainUnaryInterceptor/ChainStreamInterceptor order) with request-id, trace and every transparent layer (Log, LogContext, Debug, PopulateRequestContext, RequestContextKeyVals, SmartRedirectSlashes, StreamCanceler) in every position, the handler reading its context and calling downstream through the traced client; capture: writer histories over WriteHeader/Write/Flush/io.Copy/io.WriteString/ResponseController.Flush in any order (repeated and late WriteHeader calls, Flush first) against httptest.ResponseRecorder (with short writes) and a real net/http server; fixed sampler: every percentage 0..100 x every draw 0..99 run on the real sampler (exhaustive; the quick tier compares the rows around r = p, the extreme draws and percentages 0, 1, 50, 99, 100 with the model, the thorough tier all of them); sampling loops: 0 %, 100 % and default over n requests per transport; log: request-id middleware -> Log middleware -> handler playing a writer history (direct oracle only); concurrent: 16 goroutines x 750 requests with distinct ids through one middleware instance per transport, and 16 goroutines released by a barrier x 800 requests x 3 transports without inbound ids whose generated request, trace and span ids (115 200) must be non-empty, differ from the inbound value and be pairwise distinct (direct oracle only). Non-trivial = request-id case with a non-empty inbound value or context id; trace sequence with an inbound trace id, a sampler draw or more than one request; chain of depth >= 2 whose first server is traced; history with at least two events; stack of at least three layers; distinct = distinct inputs among those"
 	res.Extra["streams"] = map[string]int{"rid": len(rids), "trace": len(traces), "chain": len(chains), "capture": len(captures), "stack": len(stacks)}
 	b, _ := json.Marshal(cases)
 	if err := os.WriteFile(filepath.Join(*out, "cases.json"), b, 0o644); err != nil {
